@@ -381,15 +381,17 @@ class TOFUDatabase:
             raise ValueError("Invalid TOML: 'hosts' must be a table")
 
         # Clear database if not merging
-        if not merge:
-            self.clear()
-
         added_count = 0
         updated_count = 0
         skipped_count = 0
 
         with self._connection() as conn:
             cursor = conn.cursor()
+
+            if not merge:
+                # Replace mode: drop the old entries inside this import's own
+                # transaction, so that a failing import leaves the store untouched
+                cursor.execute("DELETE FROM known_hosts")
 
             for key, host_data in data["hosts"].items():
                 # Validate required fields
@@ -424,8 +426,13 @@ class TOFUDatabase:
                         f"has invalid fingerprint format: {fingerprint}"
                     )
 
-                # Check if host already exists
-                existing = self.get_host_info(hostname, port)
+                # Check if host already exists - through this connection, so that
+                # rows added or removed earlier in this transaction are seen
+                cursor.execute(
+                    "SELECT fingerprint FROM known_hosts WHERE hostname = ? AND port = ?",
+                    (hostname, port),
+                )
+                existing = cursor.fetchone()
 
                 if existing is None:
                     # New host - add it
